@@ -454,6 +454,31 @@ impl Property for C04 {
                     v.push(Case::Program { bk, regs: vec![x.clone(), y.clone(), MulGen(3u64.into())], prog: vec![Instr { dst: 3, form: f, a: 0, b: 1, c: 2 }] });
                 }
             }
+            // operands related to each other: the same element / its inverse in every representative
+            let bases = [MulGen(5u64.into()), Elligator(3u64.into()), ReDecode(Box::new(Neg(Box::new(MulGen(9u64.into()))))), Generator];
+            for base in &bases {
+                let b = || Box::new(base.clone());
+                let related = [
+                    base.clone(),
+                    Neg(b()),
+                    Torsion(b()),
+                    Torsion(Box::new(Neg(b()))),
+                    ReDecode(Box::new(Neg(b()))),
+                    ReDecode(b()),
+                    AffineRoundTrip(Box::new(Torsion(Box::new(Neg(b()))))),
+                    Double(b()),
+                    MinusOneTimes(b()),
+                ];
+                for rel in &related {
+                    for f in forms_of(bk) {
+                        if f.arity() != 2 {
+                            continue;
+                        }
+                        v.push(Case::Program { bk, regs: vec![base.clone(), rel.clone()], prog: vec![Instr { dst: 2, form: f, a: 0, b: 1, c: 0 }] });
+                        v.push(Case::Program { bk, regs: vec![base.clone(), rel.clone()], prog: vec![Instr { dst: 2, form: f, a: 1, b: 0, c: 0 }] });
+                    }
+                }
+            }
             for fa in binary_forms(bk, Op::Add) {
                 for fs in binary_forms(bk, Op::Sub) {
                     v.push(Case::Laws { bk, p: MulGen(5u64.into()), q: Elligator(2u64.into()), r: Torsion(g()), f_add: fa, f_sub: fs });
